@@ -480,8 +480,9 @@ def run_one(sc):
             rec["pred_valid"] = False
     if sc.get("pred") is not None and rec.get("pred_valid", True):
         def uni(x):
+            # one style for a uniform edge, the tuple of per-column styles otherwise
             x = list(x)
-            return (x[0] if x and all(y == x[0] for y in x) else "mixed") if x else ""
+            return (x[0] if x and all(y == x[0] for y in x) else tuple(x)) if x else ""
         trow = ("colhdr", "head", "data", "foot_t", "src_t")
         po = [(e["k"], e["p"], e["r"], e["lv"], e["val"], uni(e["top"]) if e["k"] in trow else "",
                uni(e["bot"]) if e["k"] in trow else "") for e in sc["pred"]]
